@@ -1107,9 +1107,12 @@ theorem maReleaseLoop_eq_maRelease (fuel : Nat) (m : MA) (h : m.positions.length
 /-! ### the vote loop of `multiAckNacker.Ack` / `.Nack` -/
 
 /-- the body of `for i, pos := range ob.positions` as the model writes it. -/
-def voteBody (ob : Batch) (isAck : Bool) (task : Nat) (i : Nat) (m : MA) : M (ForInStep MA) :=
+def voteBody (id : Nat) (ob : Batch) (isAck : Bool) (task : Nat) (i : Nat) (m : MA) : M (ForInStep MA) :=
   match maIndexOf m (ob.pos[i]?).join with
-  | none => do throw (.err plainErr); pure (ForInStep.yield m)
+  | none => do
+    modify fun s => { s with mas := s.mas.set! id m }
+    throw (.err plainErr)
+    pure (ForInStep.yield m)
   | some ix =>
     if m.terminal[ix]?.getD false = true then pure (ForInStep.yield m)
     else do
@@ -1128,7 +1131,7 @@ def voteBody (ob : Batch) (isAck : Bool) (task : Nat) (i : Nat) (m : MA) : M (Fo
 theorem ackerCall_multi (fuel id : Nat) (parent : Acker) (b : Batch) (isAck : Bool) (task : Nat) :
     ackerCall (fuel+1) (.multi id parent) b isAck task = (do
       let s ← get
-      let m ← forIn (List.range b.original.pos.length) (s.mas[id]!) (voteBody b.original isAck task)
+      let m ← forIn (List.range b.original.pos.length) (s.mas[id]!) (voteBody id b.original isAck task)
       modify fun s => { s with mas := s.mas.set! id m }
       releaseLoop fuel id parent) := by
   rw [ackerCall]; rfl
@@ -1154,9 +1157,9 @@ theorem itemAt_positions (m m' : MA) (h : m'.positions = m.positions) (ob : Batc
     itemAt m' ob i = itemAt m ob i := by
   simp [itemAt, maIndexOf_positions m m' h]
 
-theorem voteBody_step (ob : Batch) (isAck : Bool) (task i : Nat) (m : MA) (it : VItem) (s : PS)
+theorem voteBody_step (id : Nat) (ob : Batch) (isAck : Bool) (task i : Nat) (m : MA) (it : VItem) (s : PS)
     (h1 : i < ob.recs.length) (h2 : i < ob.st.length) (h : itemAt m ob i = some it) :
-    exec (voteBody ob isAck task i m) s = (.ok (.yield (maVote1 m isAck task it)), s) := by
+    exec (voteBody id ob isAck task i m) s = (.ok (.yield (maVote1 m isAck task it)), s) := by
   unfold itemAt at h
   unfold voteBody
   cases hix : maIndexOf m (ob.pos[i]?).join with
@@ -1188,9 +1191,9 @@ theorem voteBody_step (ob : Batch) (isAck : Bool) (task i : Nat) (m : MA) (it : 
         have he : (ob.st[i]?).bind (·.err) = ob.st[i].err := by simp [h2]
         rw [he]; rfl
 
-theorem voteLoop_forIn (ob : Batch) (isAck : Bool) (task : Nat) (s : PS) : ∀ (l : List Nat) (m : MA) (items : List VItem),
+theorem voteLoop_forIn (id : Nat) (ob : Batch) (isAck : Bool) (task : Nat) (s : PS) : ∀ (l : List Nat) (m : MA) (items : List VItem),
     (∀ i ∈ l, i < ob.recs.length ∧ i < ob.st.length) → l.mapM (itemAt m ob) = some items →
-    exec (forIn l m (voteBody ob isAck task)) s = (.ok (maVote m isAck task items), s) := by
+    exec (forIn l m (voteBody id ob isAck task)) s = (.ok (maVote m isAck task items), s) := by
   intro l
   induction l with
   | nil => intro m items _ h; simp at h; subst h; rfl
@@ -1206,7 +1209,7 @@ theorem voteLoop_forIn (ob : Batch) (isAck : Bool) (task : Nat) (s : PS) : ∀ (
       | some its =>
         rw [hrest] at h
         simp at h; subst h
-        rw [List.forIn_cons, exec_bind, voteBody_step ob isAck task i m it s (hl i List.mem_cons_self).1 (hl i List.mem_cons_self).2 hit]
+        rw [List.forIn_cons, exec_bind, voteBody_step id ob isAck task i m it s (hl i List.mem_cons_self).1 (hl i List.mem_cons_self).2 hit]
         dsimp only
         rw [maVote_cons]
         apply ih
@@ -1232,7 +1235,7 @@ theorem ackerCall_multi_sim (parent : Acker) (id : Nat) (fr : ParentFrame parent
         { s with mas := s.mas.set! id (maVote (s.mas[id]!) isAck task items) } := by
   rw [ackerCall_multi, exec_bind, exec_get]
   dsimp only
-  rw [exec_bind, voteLoop_forIn b.original isAck task s _ _ items
+  rw [exec_bind, voteLoop_forIn id b.original isAck task s _ _ items
     (by intro i hi; rw [List.mem_range] at hi; omega) hitems]
   dsimp only
   rw [exec_bind, exec_modify]
@@ -1676,11 +1679,13 @@ macro "keepsI_step" : tactic => `(tactic| with_reducible first
   | dsimp only
   | split)
 
-theorem voteBody_keeps (id : Nat) (ob : Batch) (isAck : Bool) (task i : Nat) (m : MA) :
-    KeepsI id (voteBody ob isAck task i m) := by
+theorem voteBody_keeps (id id' : Nat) (hne : id' ≠ id) (ob : Batch) (isAck : Bool) (task i : Nat) (m : MA) :
+    KeepsI id (voteBody id' ob isAck task i m) := by
   unfold voteBody
   dsimp only
-  repeat keepsI_step
+  repeat (first
+    | (with_reducible apply KeepsI.modify; intro s; exact set!_other _ _ _ _ hne)
+    | keepsI_step)
 
 theorem extentBody_keeps (id : Nat) (batch : Batch) (run : Option Nat) (k j : Nat) :
     KeepsI id (extentBody batch run k j) := by
@@ -1718,7 +1723,7 @@ theorem ackers_keep (id : Nat) : ∀ fuel : Nat,
         have hnp : ¬ parent.mentions id := fun e => hn (Or.inr e)
         rw [ackerCall_multi]
         apply KeepsI.get_bind; intro s0
-        apply KeepsI.bind (KeepsI.forIn _ (voteBody_keeps id _ _ _) _ _)
+        apply KeepsI.bind (KeepsI.forIn _ (voteBody_keeps id id' hne _ _ _) _ _)
         intro m
         apply KeepsI.bind
         · apply KeepsI.modify; intro s; exact set!_other _ _ _ _ hne
